@@ -73,6 +73,7 @@ type quant struct {
 	fn     string // name of a (Int)->Bool definition
 	lo, hi string // optional bounds ("" = unbounded)
 	pol    int    // polarity of a user quantifier inside the formula it occurs in (+1 positive)
+	key    string // frame facts: the heap key they speak about
 	line   int    // script length when the quantifier was introduced
 }
 
@@ -81,6 +82,8 @@ type point struct {
 	term  string
 	class string
 	line  int
+	typ   string // ref/arr points: type key of the object / of the array's elements ("" = unknown)
+	key   string // frame skolems: the heap key they belong to
 }
 
 // X is one symbolic execution context (one script).
@@ -124,6 +127,13 @@ type X struct {
 	polarity  int
 	noFacts   int
 	entryState *State
+	topSpec    *FuncSpec // contract of the function under verification
+	prune      bool // drop branches the assumptions rule out (functions under contract)
+	pruned     int
+	usesOnly   map[string]bool
+	abstractCallee map[string]bool
+	iaSeen     map[string]bool
+	peel       bool // try to peel loops without contract (functions under contract only)
 	retHook    func(v Val)
 	siteAsserts []SiteAssert
 	axiomVer    int
@@ -170,6 +180,10 @@ func (x *X) prelude() {
 	sc.Assert("(forall ((s Real)) (! (and (>= (gs.len s) 0) (<= (gs.len s) 4611686018427387904)) :pattern ((gs.len s))))")
 	sc.Assert("(forall ((s Real)) (! (= (= (gs.len s) 0) (= s gs.empty)) :pattern ((gs.len s))))")
 	sc.Assert("(forall ((s Real) (i Int)) (! (and (<= 0 (gs.at s i)) (<= (gs.at s i) 255)) :pattern ((gs.at s i))))")
+	// arrays inside objects: identity ia.id(slot, owner) < 0, from which owner and slot can be read back
+	sc.Declare("ia.id", []string{SInt, SInt}, SInt)
+	sc.Declare("ia.owner", []string{SInt}, SInt)
+	sc.Declare("ia.slot", []string{SInt}, SInt)
 	sc.Declare("ALLOC0", nil, arrSort(SBool))
 	x.st.heap["ALLOC"] = "ALLOC0"
 	x.heapSorts["ALLOC"] = arrSort(SBool)
@@ -341,11 +355,11 @@ func (x *X) freshVal(t types.Type, hint string) Val {
 			return Ptr{Kind: pObj, Obj: "0"}
 		}
 		v := x.fresh(hint, SInt)
-		x.assumeRef(v)
+		x.assumeRefT(v, pt.Elem())
 		return Ptr{Kind: pObj, Obj: v, Root: pt.Elem()}
 	case kSlice:
 		s := Slice{x.fresh(hint+".arr", SInt), x.fresh(hint+".off", SInt), x.fresh(hint+".len", SInt), x.fresh(hint+".cap", SInt)}
-		x.assumeSlice(s)
+		x.assumeSliceT(s, t.Underlying().(*types.Slice).Elem())
 		return s
 	case kStruct:
 		st := t.Underlying().(*types.Struct)
@@ -362,10 +376,11 @@ func (x *X) freshVal(t types.Type, hint string) Val {
 		tag := x.fresh(hint+".tag", SInt)
 		ref := x.fresh(hint+".ref", SInt)
 		x.assume(fmt.Sprintf("(>= %s 0)", tag))
+		x.addPoint(ref, "ref")
 		return Iface{tag, ref}
 	case kMap:
 		v := x.fresh(hint, SInt)
-		x.assumeRef(v)
+		x.assumeRefT(v, t)
 		return MapV{v}
 	case kTuple:
 		tt := t.(*types.Tuple)
@@ -390,14 +405,31 @@ func (x *X) assumeStr(v string) {
 	x.assume(fmt.Sprintf("(and (>= %s 0.0) (<= 0 (gs.len %s)) (<= (gs.len %s) 4611686018427387904))", v, v, v))
 }
 
-func (x *X) assumeRef(v string) {
+func (x *X) assumeRef(v string) { x.assumeRefT(v, nil) }
+
+// assumeRefT: v is nil or an existing object; t (if known) is the type of the object.
+func (x *X) assumeRefT(v string, t types.Type) {
+	typ := ""
+	if t != nil {
+		typ = typeKey(t)
+	}
+	x.addPointT(v, "ref", typ, "")
 	x.assume(fmt.Sprintf("(and (>= %s 0) (or (= %s 0) (select %s %s)))", v, v, x.heapCur("ALLOC", arrSort(SBool)), v))
 }
 
-func (x *X) assumeSlice(s Slice) {
+func (x *X) assumeSlice(s Slice) { x.assumeSliceT(s, nil) }
+
+func (x *X) assumeSliceT(s Slice, elem types.Type) {
+	typ := ""
+	if elem != nil {
+		typ = typeKey(elem)
+	}
+	x.addPointT(s.Arr, "arr", typ, "")
 	x.assume(fmt.Sprintf("(and (<= 0 %s) (<= 0 %s) (<= %s %s) (<= (+ %s %s) 4611686018427387904))", s.Off, s.Len, s.Len, s.Cap, s.Off, s.Cap))
 	// the backing array exists already (interior arrays of objects have negative identities)
 	x.assume(fmt.Sprintf("(or (<= %s 0) (select %s %s))", s.Arr, x.heapCur("ALLOC", arrSort(SBool)), s.Arr))
+	// an array inside an object (negative identity -(64*owner+n)) belongs to an existing object
+	x.assume(fmt.Sprintf("(or (>= %s 0) (select %s (ia.owner %s)))", s.Arr, x.heapCur("ALLOC", arrSort(SBool)), s.Arr))
 }
 
 // flatten lists the scalar components of a value (first-class values only).
@@ -718,7 +750,7 @@ func (x *X) interiorArr(l loc) string {
 		name := "GA$" + sanitize(l.key)
 		if _, ok := x.sc.declared[name]; !ok {
 			x.sc.Declare(name, nil, SInt)
-			x.sc.Assert(fmt.Sprintf("(< %s (- 1000000))", name))
+			x.sc.Assert(fmt.Sprintf("(and (< %s (- 1000000)) (> %s (- 2000000)))", name, name))
 			for other := range x.sc.declared {
 				if strings.HasPrefix(other, "GA$") && other != name {
 					x.sc.Assert(fmt.Sprintf("(not (= %s %s))", name, other))
@@ -735,7 +767,16 @@ func (x *X) interiorArr(l loc) string {
 		n = len(x.interior) + 1
 		x.interior[l.key] = n
 	}
-	return fmt.Sprintf("(- (+ (* %s 64) %d))", l.idx[0], n)
+	id := fmt.Sprintf("(ia.id %d %s)", n, l.idx[0])
+	if !x.iaSeen[id] {
+		if x.iaSeen == nil {
+			x.iaSeen = map[string]bool{}
+		}
+		x.iaSeen[id] = true
+		x.sc.Assert(fmt.Sprintf("(and (< %s (- 2000000)) (= (ia.owner %s) %s) (= (ia.slot %s) %d))", id, id, l.idx[0], id, n))
+	}
+	x.addPoint(id, "arr")
+	return id
 }
 
 func elemLoc(elem types.Type, arr, idx string) loc {
@@ -761,20 +802,22 @@ func (x *X) loadAt(l loc, t types.Type) Val {
 		return S{v, SInt}
 	case kPointer:
 		v := x.readLeaf(l, "", SInt)
-		x.assumeRef(v)
+		x.assumeRefT(v, t.Underlying().(*types.Pointer).Elem())
 		return Ptr{Kind: pObj, Obj: v, Root: t.Underlying().(*types.Pointer).Elem()}
 	case kMap:
 		v := x.readLeaf(l, "", SInt)
-		x.assumeRef(v)
+		x.assumeRefT(v, t)
 		return MapV{v}
 	case kSlice:
 		s := Slice{x.readLeaf(l, "#arr", SInt), x.readLeaf(l, "#off", SInt), x.readLeaf(l, "#len", SInt), x.readLeaf(l, "#cap", SInt)}
-		x.assumeSlice(s)
+		x.assumeSliceT(s, t.Underlying().(*types.Slice).Elem())
 		return s
 	case kIface:
 		tag := x.readLeaf(l, "#tag", SInt)
 		x.assume("(>= " + tag + " 0)")
-		return Iface{tag, x.readLeaf(l, "#ref", SInt)}
+		ref := x.readLeaf(l, "#ref", SInt)
+		x.addPoint(ref, "ref")
+		return Iface{tag, ref}
 	case kStruct:
 		st := t.Underlying().(*types.Struct)
 		tv := Tup{}
@@ -964,6 +1007,8 @@ func (x *X) newRef(hint string) string {
 	r := x.fresh(hint, SInt)
 	alloc := x.heapCur("ALLOC", arrSort(SBool))
 	x.assume(fmt.Sprintf("(and (> %s 0) (not (select %s %s)))", r, alloc, r))
+	x.addPoint(r, "ref")
+	x.addPoint(r, "arr")
 	x.st.heap["ALLOC"] = x.define("alloc", arrSort(SBool), fmt.Sprintf("(store %s %s true)", alloc, r))
 	return r
 }
@@ -1366,7 +1411,11 @@ func valueHint(v ssa.Value) string {
 
 func (x *X) pushEdge(fr *frame, from *ssa.BasicBlock, to *ssa.BasicBlock, cond string, only map[int]bool) {
 	st := x.st.clone()
-	st.cond = x.define("ec", SBool, and(x.st.cond, cond))
+	if cond == "false" || x.st.cond == "false" {
+		st.cond = "false"
+	} else {
+		st.cond = x.define("ec", SBool, and(x.st.cond, cond))
+	}
 	e := edge{from: from.Index, to: to.Index, st: st}
 	if only != nil && (!only[to.Index] || (fr.inLoop != nil && to == fr.inLoop.header)) {
 		fr.exitsTo = append(fr.exitsTo, e)
@@ -1490,7 +1539,9 @@ func (x *X) globalNeverWritten(g *ssa.Global) bool {
 
 // addPoint registers an instantiation point (a loop witness, a skolem
 // constant, an index used by the code or by a specification).
-func (x *X) addPoint(term, class string) {
+func (x *X) addPoint(term, class string) { x.addPointT(term, class, "", "") }
+
+func (x *X) addPointT(term, class, typ, hkey string) {
 	if x.inline || term == "" {
 		return
 	}
@@ -1500,11 +1551,15 @@ func (x *X) addPoint(term, class string) {
 	if x.pointSeen == nil {
 		x.pointSeen = map[string]bool{}
 	}
-	if x.pointSeen[term] || len(term) > 200 {
+	key := term
+	if class == "ref" || class == "arr" {
+		key = class + ":" + term
+	}
+	if x.pointSeen[key] || len(term) > 200 {
 		return
 	}
-	x.pointSeen[term] = true
-	x.points = append(x.points, point{term: term, class: class, line: len(x.sc.lines)})
+	x.pointSeen[key] = true
+	x.points = append(x.points, point{term: term, class: class, line: len(x.sc.lines), typ: typ, key: hkey})
 }
 
 // instances renders the instantiation of every quantified fact introduced
@@ -1518,6 +1573,28 @@ func (x *X) instances(upto int) string {
 		var pts []string
 		for _, p := range x.points {
 			if p.line > upto {
+				continue
+			}
+			refQ, refP := q.class == "ref" || q.class == "arr", p.class == "ref" || p.class == "arr"
+			if refQ != refP || (refQ && q.class != p.class) {
+				// frame facts range over object / array identities, everything else over integers
+				continue
+			}
+			if refQ {
+				if q.key == "*skolem" {
+					// allocation only grows: needed where a frame has to be established
+					if p.key != "" {
+						pts = append(pts, p.term)
+					}
+					continue
+				}
+				if q.key != "" && p.key != "" && p.key != q.key {
+					continue
+				}
+				if q.key != "" && p.typ != "" && !keyOfType(q.key, p.typ) {
+					continue
+				}
+				pts = append(pts, p.term)
 				continue
 			}
 			if q.class != "" && p.class != q.class && p.class != "*" && p.class != "idx" {
@@ -1614,4 +1691,18 @@ func (x *X) heapVersionFor(reads []string) int {
 		x.readPats[key] = regexp.MustCompile(pat)
 	}
 	return x.st.vers[key]
+}
+
+// keyOfType: heap key k (H:, E: or M:) belongs to objects / arrays / maps of type key typ.
+// Keys of other kinds (boxes, ghost state) are not typed.
+func keyOfType(k, typ string) bool {
+	if len(k) < 2 || (k[:2] != "H:" && k[:2] != "E:" && k[:2] != "M:") {
+		return true
+	}
+	rest := k[2:]
+	if !strings.HasPrefix(rest, typ) {
+		return false
+	}
+	rest = rest[len(typ):]
+	return rest == "" || rest[0] == '.' || rest[0] == '#'
 }
